@@ -55,6 +55,7 @@ def run(chk, tier):
     chk.explanation = __doc__
     chk.rule("X-PHRASE-SPAN", "every phrase offset inside the method's documented significant window may be read by the computation (an offset that is never read cannot influence the hash)")
     chk.rule("X-PHRASE-DIGEST", "the digest / cipher primitives can receive a phrase-derived input as long as the significant window (the whole phrase; its UTF-16 form for NT; an 8-byte key block for the DES family)")
+    chk.rule("X-PHRASE-FULL", "every digest / KDF call that receives the phrase from its first byte with a variable length can receive the whole significant window (no call site is handed a clamped length)")
     chk.rule("X-SALT-SPAN", "every salt and cost character of a generated setting may be read by the computation (not merely echoed)")
     chk.rule("R-PHRASE-LIMIT", "do_crypt refuses phrases of CRYPT_MAX_PASSPHRASE_SIZE (512) bytes and more and passes the full length on otherwise")
     t = CG.run_traced(tier)
@@ -98,6 +99,14 @@ def run(chk, tier):
                 chk.fail("X-PHRASE-DIGEST", "%s|%d" % (method, got), "%s: the longest phrase-derived input a digest primitive can receive is %d bytes, the significant window needs %d (setting %s)" % (method, got, want, shown), "lib/", {"cell": cid, "spans": spans[:4]})
             else:
                 chk.ok("X-PHRASE-DIGEST", cid, sample={"method": method, "longest": got, "needed": want})
+        # every digest / KDF call that is handed the phrase itself (from its first byte) is handed all of it
+        short = [e for e in c.get("trace", []) if e.get("k") == "cread" and e.get("reg") == "phrase" and e["off"] == [0, 0] and int(e["len"][1]) < min(w, MAXPHRASE) and e["len"][0] != e["len"][1]]      # a constant length (md5crypt mixes in phrase[0] byte by byte) is not a clamp
+        if short:
+            e = short[0]
+            chk.fail("X-PHRASE-FULL", "%s|%s@%s:%d" % (method, e["callee"], e["fn"], e["line"]), "%s: %s (called from %s line %d) is handed at most %d bytes of the phrase although %d are significant (setting %s)" % (
+                method, e["callee"], e["fn"], e["line"], int(e["len"][1]), min(w, MAXPHRASE), shown), "%s:%d" % (e["fn"], e["line"]), {"cell": cid})
+        else:
+            chk.count("X-PHRASE-FULL", max(1, len([e for e in c.get("trace", []) if e.get("k") == "cread" and e.get("reg") == "phrase"])), [cid])
         # setting
         provs = mt.get("provs")
         if provs is None or len(provs) != len(mt["pattern"]):
